@@ -199,6 +199,10 @@ def run(ctx):
                 # a path that moves); then both are resolved
                 pa, pb = ["/" + "/".join(x) for x in paths[:2]]
                 ops += [["sync", [[pa, stored_keys[0]]]], ["sync", [[pa, stored_keys[1]], [pb, stored_keys[1]]]], ["fetch_paths", [pa]], ["fetch_paths", [pb]]]
+                # ... and: a commit of two paths, another commit re-points the second one, the first commit again (unchanged
+                # pipeline re-run after another pipeline moved a shared path)
+                ops += [["sync", [[pa, stored_keys[0]], [pb, stored_keys[1]]]], ["sync", [[pb, stored_keys[0]]]],
+                        ["sync", [[pa, stored_keys[0]], [pb, stored_keys[1]]]], ["fetch_paths", [pb]], ["fetch_paths", [pa]]]
             d = mkd()
             st = make_dbfs_store(d, ct)
             outs = []
